@@ -456,6 +456,39 @@ fn is_keyword(t: &str) -> bool {
     matches!(t, "end" | "begin" | "data" | "codata" | "as" | "def" | "define" | "let" | "param" | "in" | "that" | "do" | "ret" | "fn" | "pi" | "fix" | "match" | "comatch" | "forall" | "sigma" | "exists")
 }
 
+/// For every `@(literal)` / `@[literal]` / `@[doc ..]` annotation of the source: the `--|` text attached to it - the
+/// text block that ends on the line directly above the annotation (that text is the VALUE of a literal splice and the
+/// documentation of a doc annotation) - or None when nothing is attached.
+pub fn attachments(src: &str) -> Vec<Option<String>> {
+    let lines: Vec<&str> = src.lines().collect();
+    let mut out = Vec::new();
+    for (i, l) in lines.iter().enumerate() {
+        let t = l.trim_start();
+        let mut rest = t;
+        // an annotation may follow other tokens on its line; attachment needs it to START its line's annotation position
+        while let Some(p) = rest.find('@') {
+            let after = &rest[p + 1..];
+            let is = ["(literal", "[literal", "(doc", "[doc"].iter().any(|m| after.starts_with(m));
+            if is {
+                let starts_line = t[..t.len() - rest.len() + p].trim().is_empty();
+                let mut text: Vec<String> = Vec::new();
+                if starts_line {
+                    let mut j = i;
+                    while j > 0 && lines[j - 1].trim_start().starts_with("--|") {
+                        j -= 1;
+                    }
+                    for k in j..i {
+                        text.push(lines[k].trim_start().trim_start_matches("--|").trim().to_string());
+                    }
+                }
+                out.push(if text.is_empty() { None } else { Some(text.join("\n")) });
+            }
+            rest = after;
+        }
+    }
+    out
+}
+
 /// Code tokens modulo the printer's canonical spellings, none of which changes the parsed term:
 /// parentheses (accounted for by the structure comparison and the skeleton check), binder telescopes
 /// (`fn a b =>` / `fn a => fn b =>`), `define` / `def`, `comatch p => t end` / `fn p => t`, `@[m] _` / `@(m)`.
@@ -690,6 +723,12 @@ pub fn eval_case(src: &str, opt: &Opt, origin: &str, tally: &mut Tally, findings
         };
         let cause = if kind == "comment-duplicated" && src.contains("format(verbatim") { "verbatim-region-with-interior-trailing-comment" } else { "other" };
         report("C13", kind, format!("cause={cause}; {} comment lines -> {}; {:?} -> {:?}", sa.len(), sb.len(), ca.iter().take(4).collect::<Vec<_>>(), cb.iter().take(4).collect::<Vec<_>>()), json!({"output": clip(&out1)}));
+    }
+    // documentation / literal text stays attached to its annotation
+    let (at_in, at_out) = (attachments(src), attachments(&out1));
+    if at_in.iter().any(|x| x.is_some()) && at_in != at_out {
+        tally.hit("comments");
+        report("C13", "attached-text-detached", format!("{:?} -> {:?}", at_in, at_out), json!({"output": clip(&out1)}));
     }
     let (ta, tb) = (norm_tokens(&a.tokens, true), norm_tokens(&b.tokens, true));
     if ta != tb && !explained_by_puns(&ta, &tb) {
